@@ -1725,3 +1725,72 @@ def expand_new_expression_methods(trees: Dict[str, ast.Module]) -> List[str]:
         M().visit(t)
         ast.fix_missing_locations(t)
     return sorted(set(done))
+
+
+# ======================================================================================================================
+# Locals that merely name an attribute of self which is bound once, in __init__ (`modules = self.modules` at the top of a
+# method; `p = self.parser`): in functions that changed since the rules were written the local is read as the attribute.
+# Exact: the attribute is never rebound anywhere in the program outside __init__, so both names denote the same object for
+# the whole call.
+# ======================================================================================================================
+def attribute_aliases(trees: Dict[str, ast.Module]) -> List[str]:
+    if not _SIGS:
+        return []
+    rebound: Set[str] = set()
+    for t in trees.values():
+        for c in ast.walk(t):
+            if isinstance(c, ast.ClassDef):
+                for m in c.body:
+                    if isinstance(m, (ast.FunctionDef, ast.AsyncFunctionDef)) and m.name != "__init__":
+                        for n in ast.walk(m):
+                            if isinstance(n, ast.Attribute) and isinstance(n.ctx, (ast.Store, ast.Del)):
+                                rebound.add(n.attr)
+        for n in ast.walk(t):
+            if isinstance(n, ast.Attribute) and isinstance(n.ctx, (ast.Store, ast.Del)) and not (isinstance(n.value, ast.Name) and n.value.id == "self"):
+                rebound.add(n.attr)
+            elif isinstance(n, ast.Call) and isinstance(n.func, ast.Name) and n.func.id in ("setattr", "delattr") and len(n.args) >= 2 and isinstance(n.args[1], ast.Constant):
+                rebound.add(n.args[1].value)
+    out: List[str] = []
+    for mod, t in trees.items():
+        changed = {id(d) for d in changed_functions(t, mod)}
+        if not changed:
+            continue
+        for c in [c for c in ast.walk(t) if isinstance(c, ast.ClassDef)]:
+            inits = {n.attr for m in c.body if isinstance(m, ast.FunctionDef) and m.name == "__init__" for n in ast.walk(m)
+                     if isinstance(n, ast.Attribute) and isinstance(n.ctx, ast.Store) and isinstance(n.value, ast.Name) and n.value.id == "self"}
+            for m in c.body:
+                if not isinstance(m, ast.FunctionDef) or id(m) not in changed or m.name == "__init__" or not m.args.args or m.args.args[0].arg != "self":
+                    continue
+                stores: Dict[str, List[ast.AST]] = {}
+                for n in ast.walk(m):
+                    if isinstance(n, ast.Name) and isinstance(n.ctx, (ast.Store, ast.Del)):
+                        stores.setdefault(n.id, []).append(n)
+                    elif isinstance(n, ast.arg):
+                        stores.setdefault(n.arg, []).extend([n, n])
+                    elif isinstance(n, ast.ExceptHandler) and n.name:
+                        stores.setdefault(n.name, []).extend([n, n])
+                amap: Dict[str, str] = {}
+                drop = []
+                for st in m.body:  # only top-level statements of the method body: they dominate everything after them
+                    if isinstance(st, ast.Assign) and len(st.targets) == 1 and isinstance(st.targets[0], ast.Name) and len(stores.get(st.targets[0].id, [])) == 1 \
+                            and isinstance(st.value, ast.Attribute) and isinstance(st.value.value, ast.Name) and st.value.value.id == "self" \
+                            and st.value.attr in inits and st.value.attr not in rebound:
+                        amap[st.targets[0].id] = st.value.attr
+                        drop.append(st)
+                if not amap:
+                    continue
+                # a nested scope that rebinds the name would shadow it: leave such functions alone
+                if any(isinstance(x, (ast.FunctionDef, ast.AsyncFunctionDef, ast.Lambda, ast.ClassDef)) for x in ast.walk(m) if x is not m):
+                    continue
+
+                class A(ast.NodeTransformer):
+                    def visit_Name(self, n):
+                        if isinstance(n.ctx, ast.Load) and n.id in amap:
+                            return ast.copy_location(ast.Attribute(value=ast.Name(id="self", ctx=ast.Load()), attr=amap[n.id], ctx=ast.Load()), n)
+                        return n
+
+                m.body = [A().visit(b) for b in m.body if not any(b is d_ for d_ in drop)] or [ast.Pass()]
+                for b in m.body:
+                    ast.fix_missing_locations(b)
+                out.append(f"{c.name}.{m.name}: " + ", ".join(f"{k} = self.{v}" for k, v in sorted(amap.items())))
+    return out
